@@ -31,6 +31,9 @@ Checks(r) ==
        <<"Modes", r.ok => {Obj(x, TRUE) : x \in Rng(r.got)} = {Want(x, o.preserve) : x \in Rng(r.src)}>>,
        <<"DescriptorMatchesBytes", r.descok>>,
        <<"ReproducibleDescriptor", (o.reproducible /\ r.isdir) => r.samedesc>>}
+  ELSE IF r.kind = "used" THEN    \* restored over longer files of the same names: same paths, types and bytes
+    {<<"PipelineSucceeds", r.ok>>,
+     <<"OverwritesCompletely", r.ok => {Obj(x, FALSE) : x \in Rng(r.got)} = {Obj(x, FALSE) : x \in Rng(r.src)}>>}
   ELSE IF r.kind = "dup" THEN
     {<<"DuplicatesBothMaterialise", (r.ok /\ ~o.forcecas) => (r.first /\ r.second)>>,
      <<"PipelineSucceeds", r.ok>>}
